@@ -24,6 +24,9 @@ func smallHandlerInline(fn *ssa.Function) bool {
 }
 
 func runC13(c *Ctx) {
+	defer checkParseSignatureFirst(c, "C13.R10")
+	defer checkClientGetters(c, "C13.R9", clientGetter{"DefaultResponseModeClient", "GetResponseModes", "ResponseModes", ""}, clientGetter{"DefaultOpenIDConnectClient", "GetRequestObjectSigningAlgorithm", "RequestObjectSigningAlgorithm", ""}, clientGetter{"DefaultOpenIDConnectClient", "GetJSONWebKeys", "JSONWebKeys", ""}, clientGetter{"DefaultOpenIDConnectClient", "GetJSONWebKeysURI", "JSONWebKeysURI", ""}, clientGetter{"DefaultOpenIDConnectClient", "GetRequestURIs", "RequestURIs", ""})
+	defer checkResponseModeHas(c, "C13.R8")
 	defer checkConfigGetters(c, "C13.R7", "GetMinParameterEntropy", "GetAllowedPrompts")
 	c13R1(c)
 	c13Handlers(c)
@@ -167,7 +170,7 @@ func c13R1(c *Ctx) {
 		for _, f := range p.Facts {
 			if f.Atom.Kind == "LT" && !f.Pol && f.Atom.A.IsCall("len") && f.Atom.B.IsCall(".GetMinParameterEntropy") {
 				if f.Atom.A.Args[0].Mentions(func(s *Term) bool {
-					return s.Op == "field" && s.Name == "State" || s.IsCall(".Get") && len(s.Args) == 2 && s.Args[1].Key() == tStr("state").Key() || s.IsCall(".GetState")
+					return (s.Op == "field" || s.Op == "out") && s.Name == "State" || s.IsCall(".Get") && len(s.Args) == 2 && s.Args[1].Key() == tStr("state").Key() || s.IsCall(".GetState")
 				}) {
 					okS = true
 				}
@@ -175,6 +178,41 @@ func c13R1(c *Ctx) {
 		}
 		if !okS {
 			fail("state-entropy", p, "success without len(state) >= GetMinParameterEntropy")
+		}
+		// ... and the state that was measured is not older than the state that is recorded (and echoed):
+		// a local read before the request object / pushed request replaced it measures another value
+		lastState := -1
+		for _, e := range p.Events {
+			if e.Kind == "store" && e.Name == "State" && len(e.Args) == 2 {
+				lastState = e.Args[1].Clock
+			}
+			if e.Kind == "call" && e.StaticFn != nil && fnStoresField(e.StaticFn, "State") {
+				lastState = e.Idx + 1 // a step that was not inlined rewrites State
+			}
+		}
+		for _, f := range p.Facts {
+			if f.Atom.Kind == "LT" && !f.Pol && f.Atom.A.IsCall("len") && f.Atom.B.IsCall(".GetMinParameterEntropy") {
+				f.Atom.A.Walk(func(s *Term) bool {
+					if s.IsCall(".Get") && len(s.Args) == 2 && s.Args[1].Key() == tStr("state").Key() && s.Clock > 0 && s.Clock < lastState {
+						fail("state-entropy", p, "the state whose length is checked was read before the recorded state was last replaced")
+					}
+					return true
+				})
+			}
+		}
+		// the openid test reads the requested scopes after they were parsed from the form
+		lastScopes := -1
+		for _, e := range p.Events {
+			if e.Kind == "call" && e.Name == ".SetRequestedScopes" || e.Kind == "store" && e.Name == "RequestedScope" {
+				lastScopes = e.Idx
+			}
+		}
+		for _, f := range p.Facts {
+			if f.Atom.Kind == "B" && f.Atom.A.IsCall(".Has") && len(f.Atom.A.Args) == 2 && litHas(f.Atom.A.Args[1], "openid") {
+				if g := f.Atom.A.Args[0]; g.IsCall(".GetRequestedScopes") && g.Clock > 0 && g.Clock <= lastScopes {
+					fail("openid-needs-redirect-uri", p, "the openid test read the requested scopes before they were parsed from the form")
+				}
+			}
 		}
 		// openid => redirect_uri
 		oid, k := p.BoolCall(".Has", func(t *Term) bool {
@@ -634,7 +672,40 @@ func c13ErrState(c *Ctx) {
 			if !set {
 				ok, w = false, p
 			}
+			// ... and nothing replaces it afterwards: parameters of the registered redirect URI are
+			// appended (Add), a Set/Del under a key that is not a constant may overwrite state or error
+			var stateSet *Event
+			for _, s := range p.Calls(".Set", ".Del") {
+				if s.Idx >= e.Idx {
+					break
+				}
+				if s.Name == ".Set" && s.Arg(0).Key() == tStr("state").Key() {
+					stateSet = s
+					continue
+				}
+				if stateSet != nil && s.Recv != nil && stateSet.Recv != nil && s.Recv.Key() == stateSet.Recv.Key() {
+					if _, isC := s.Arg(0).StrConst(); !isC {
+						ok, w = false, p
+					} else if strVal(s.Arg(0)) == "state" {
+						ok, w = false, p
+					}
+				}
+			}
 		}
 	}
-	c.Check(ok && n > 0, rule, role, fn, "state-on-redirected-errors", "redirected errors carry state = GetState(request)", "an error redirect is emitted without the state parameter", w)
+	c.Check(ok && n > 0, rule, role, fn, "state-on-redirected-errors", "redirected errors carry state = GetState(request) and no later Set/Del under a computed key can replace it", "an error redirect is emitted without the state parameter, or the parameter can be overwritten before the redirect", w)
+}
+
+// fnStoresField: the function body stores to a struct field of that name.
+func fnStoresField(fn *ssa.Function, name string) bool {
+	for _, b := range fn.Blocks {
+		for _, ins := range b.Instrs {
+			if st, ok := ins.(*ssa.Store); ok {
+				if fa, ok := st.Addr.(*ssa.FieldAddr); ok && fieldNameOf(fa.X.Type(), fa.Field) == name {
+					return true
+				}
+			}
+		}
+	}
+	return false
 }
